@@ -103,6 +103,10 @@ fn any_code_in_parser_range<const N: usize>() -> HuffmanCode {
         i += 1;
     }
     kani::assume(sum == N);
+    // HuffmanCode::parse rejects codes without the sentinel (sum == 0) and codes with a zero-length entry
+    // (counts[0] != 0) -- huffman.rs, "invalid Huffman code in JPEG reconstruction data"; established by
+    // jb.huff_parse_build_a / _c on the real parser.
+    kani::assume(N >= 1 && counts[0] == 0);
     let raw: [u8; N] = kani::any();
     let values = raw.to_vec();
     let id: u8 = kani::any();
@@ -150,6 +154,9 @@ fn build_matches_annex_c<const N: usize>() {
     check_table_against_spec(&hc, &t);
 }
 
+// N = 2 (quick) has a single real symbol, whose code word is 0 whatever the shift: it pins lengths, table shape,
+// lookup and encoded_len only. Code ASSIGNMENT (increment, shift on length change, left alignment) is exercised
+// from N = 3 on (thorough: ~5 min; N = 5: ~9 min) -- mutation-tested with N = 3.
 macro_rules! annex_c_proof {
     ($name:ident, $n:expr) => {
         #[kani::proof]
@@ -176,8 +183,8 @@ fn build_total_on_parser_range<const N: usize>() {
     let v: u8 = kani::any();
     let _ = t.lookup(v);
     assert!(t.lengths.len() == 256 && t.bits.len() == 256, "[C17,C01] one entry per symbol value");
-    kani::cover!(hc.counts[0] > 0 || N == 0);
-    kani::cover!(hc.counts[0] == 0);
+    kani::cover!(hc.counts[16] > 0);
+    kani::cover!(hc.counts[1] > 0);
 }
 
 macro_rules! total_proof {
@@ -191,7 +198,6 @@ macro_rules! total_proof {
         }
     };
 }
-total_proof!(build_total_0, 0); // no value at all
 total_proof!(build_total_1, 1); // the sentinel only
 total_proof!(build_total_2, 2); // one symbol + sentinel, possibly with a zero-length code
 total_proof!(build_total_3, 3);
